@@ -33,7 +33,7 @@ import (
 )
 
 type step struct {
-	K     string             `json:"k"` // connect | sleep | kill | goaway | behav | resolve | rpc | resetbackoff | close | wait | storm
+	K     string             `json:"k"` // connect | sleep | kill | goaway | behav | resolve | updaddrs | rpc | resetbackoff | close | wait | storm
 	N     int                `json:"n,omitempty"`
 	D     time.Duration      `json:"d,omitempty"`
 	Addr  string             `json:"addr,omitempty"`
@@ -98,14 +98,20 @@ func gen(rng *rand.Rand, fam string) scenario {
 			sc.Steps = append(sc.Steps, step{K: "kill", N: rng.Intn(8)})
 		case r < 56:
 			sc.Steps = append(sc.Steps, step{K: "goaway", N: rng.Intn(8)})
+		case r < 61:
+			sc.Steps = append(sc.Steps, step{K: "updaddrs", N: rng.Intn(8), Addrs: subset(rng)})
 		case r < 66:
 			sc.Steps = append(sc.Steps, step{K: "behav", Addr: allAddrs[rng.Intn(len(allAddrs))], B: genQueue(rng)})
 		case r < 74:
 			sc.Steps = append(sc.Steps, step{K: "resolve", Addrs: subset(rng)})
 		case r < 86:
 			sc.Steps = append(sc.Steps, step{K: "rpc", D: vlib.Pick(rng, 50*time.Millisecond, 400*time.Millisecond, 1500*time.Millisecond)})
-		case r < 90:
+		case r < 88:
 			sc.Steps = append(sc.Steps, step{K: "resetbackoff"})
+		case r < 90:
+			// a Connect immediately followed by UpdateAddresses: the attempt is in
+			// flight (inside the dialer's latency or hanging) when its list is replaced
+			sc.Steps = append(sc.Steps, step{K: "connect"}, step{K: "updaddrs", N: rng.Intn(8), Addrs: subset(rng)[:1]})
 		case r < 92 && !closed && k > n/2:
 			closed = true
 			sc.Steps = append(sc.Steps, step{K: "close"})
@@ -289,7 +295,9 @@ func run(sc scenario) *result {
 	evFed := 0
 	type scState struct {
 		id, lb     int
-		addr       string
+		addr       string   // for messages
+		addrs      []string // current address list (SubConn.UpdateAddresses replaces it)
+		updSeq     int      // seq of the last update-addrs event (0 = none)
 		states     []chanfix.LBEvent
 		shutCalled bool
 		connectSeq int // seq of the LB's last Connect() call (0 = none)
@@ -330,7 +338,13 @@ func run(sc scenario) *result {
 			case "close":
 				lbClosed[e.LB] = true
 			case "new-sc":
-				scs[e.SC] = &scState{id: e.SC, lb: e.LB, addr: e.Addr}
+				scs[e.SC] = &scState{id: e.SC, lb: e.LB, addr: e.Addr, addrs: []string{e.Addr}}
+			case "update-addrs":
+				if s := scs[e.SC]; s != nil {
+					s.addrs = strings.Split(e.Addr, ",")
+					s.addr = e.Addr
+					s.updSeq = e.Seq
+				}
 			case "connect":
 				if s := scs[e.SC]; s != nil {
 					s.connectSeq = e.Seq
@@ -356,7 +370,21 @@ func run(sc scenario) *result {
 						v("subchannel-update-after-shutdown", "subchannel %d (%s): %v delivered after SHUTDOWN (sequence so far %v)", e.SC, e.Addr, e.State, stateSeq(s.states))
 					}
 				}
-				if prev != connectivity.Shutdown && !legal(prev, e.State) {
+				// SubConn.UpdateAddresses on a READY subchannel whose address is not in the
+				// new list makes grpc reconnect at once: READY -> CONNECTING is then the
+				// documented "state transition triggered by UpdateAddresses"
+				viaUpdate := false
+				if prev == connectivity.Ready && e.State == connectivity.Connecting && s.updSeq > 0 {
+					before := 0
+					if n := len(s.states); n >= 2 {
+						before = s.states[n-2].Seq
+					}
+					viaUpdate = s.updSeq > before
+				}
+				if viaUpdate {
+					res.counters["ready_to_connecting_by_update_addresses"]++
+				}
+				if prev != connectivity.Shutdown && !legal(prev, e.State) && !viaUpdate {
 					v("illegal-subchannel-edge", "subchannel %d (%s): %v -> %v is not an allowed transition (delivered sequence %v + %v)", e.SC, e.Addr, prev, e.State, stateSeq(s.states), e.State)
 				}
 				res.sigs = append(res.sigs, fmt.Sprintf("sc:%v>%v", prev, e.State))
@@ -451,9 +479,14 @@ func run(sc scenario) *result {
 					v("subchannel-update-missed", "after %q at %v: the LB policy called Connect() on subchannel %d (%s) after the last delivered state (%v), everything is quiescent, but no further state was delivered", label, now(), s.id, s.addr, stateSeq(s.states))
 				}
 			case connectivity.Connecting:
-				pending := nw.InFlight(s.addr) > 0
+				pending := false
+				for _, a := range s.addrs {
+					if nw.InFlight(a) > 0 {
+						pending = true
+					}
+				}
 				for _, c := range conns {
-					if c.Addr == s.addr && c.Pending() {
+					if has(s.addrs, c.Addr) && c.Pending() {
 						pending = true
 					}
 				}
@@ -463,7 +496,7 @@ func run(sc scenario) *result {
 			case connectivity.Ready:
 				live := false
 				for _, c := range conns {
-					if c.Addr == s.addr && c.Mode == chanfix.Accept && !c.Dead() {
+					if has(s.addrs, c.Addr) && c.Mode == chanfix.Accept && !c.Dead() {
 						live = true
 					}
 				}
@@ -500,6 +533,25 @@ func run(sc scenario) *result {
 			nw.Set(st.Addr, st.B...)
 		case "resolve":
 			mr.UpdateState(mkState(st.Addrs))
+		case "updaddrs":
+			// the script plays a policy that re-targets one of its live subchannels
+			feed()
+			var live []*scState
+			for _, s := range scs {
+				if s.lb == curLB && !lbClosed[s.lb] && !s.shutCalled && (len(s.states) == 0 || s.states[len(s.states)-1].State != connectivity.Shutdown) {
+					live = append(live, s)
+				}
+			}
+			sort.Slice(live, func(i, j int) bool { return live[i].id < live[j].id })
+			if len(live) > 0 && !closedCh {
+				t := live[st.N%len(live)]
+				if rec.UpdateAddresses(t.id, st.Addrs) {
+					res.counters["update_addresses_calls"]++
+					if n := len(t.states); n > 0 && t.states[n-1].State == connectivity.Connecting {
+						res.counters["update_addresses_while_connecting"]++
+					}
+				}
+			}
 		case "rpc":
 			rpcWG.Add(1)
 			go func() {
@@ -583,6 +635,15 @@ func run(sc scenario) *result {
 	res.counters["subchannels"] = int64(len(scs))
 	res.counters["lb_instances"] = int64(curLB)
 	return res
+}
+
+func has(xs []string, x string) bool {
+	for _, y := range xs {
+		if y == x {
+			return true
+		}
+	}
+	return false
 }
 
 func stateSeq(es []chanfix.LBEvent) string {
@@ -674,7 +735,7 @@ func TestVerifC30(t *testing.T) {
 	runFam(t, r, "storm", r.N(500, 6000)/light())
 	r.Finish(vlib.Spec{
 		Level: "exploration",
-		Rule:  "real ClientConn (manual resolver with 1-3 addresses, recording LB policy delegating to pick_first, idle timeout in {off,1s,3s,10s}, backoff base 100ms/1s, max 1-20x, jitter 0/0.2) dialing through a scripted network whose per-address behaviour queue mixes refuse, accept, accept-then-close (before and after the server preface) and hang; 12-52 steps: Connect, virtual sleeps 10ms-25s (backoff and idle timers fire), close or GOAWAY a live connection, change behaviours, resolver updates with other address subsets, RPCs with deadlines, ResetConnectBackoff, Close in the middle, and (family storm) bursts of Connect against servers that hang up right after the handshake; 1-8 watcher goroutines loop GetState/WaitForStateChange. Oracles: per subchannel only the edges IDLE>CONNECTING, CONNECTING>READY|TRANSIENT_FAILURE|IDLE, READY>IDLE, TRANSIENT_FAILURE>IDLE, any>SHUTDOWN as delivered to the LB policy, nothing after SHUTDOWN or after the policy's Close, TRANSIENT_FAILURE>IDLE no earlier than base*(1-jitter) unless ResetConnectBackoff intervened; at every quiescent point: GetState == last state published to a subscriber, no watcher blocked in WaitForStateChange(s) with GetState != s, every live subchannel's last delivered state agrees with the network (CONNECTING needs an outstanding dial, READY a live connection, TRANSIENT_FAILURE not older than the longest backoff, a Connect() after IDLE must have produced a state); the channel publishes nothing after SHUTDOWN; every watcher's observations are an in-order subsequence of the published states and end in SHUTDOWN. Non-trivial = watchers were checked and the channel changed state; distinct = set of subchannel and channel edges seen in the case.",
+		Rule:  "real ClientConn (manual resolver with 1-3 addresses, recording LB policy delegating to pick_first, idle timeout in {off,1s,3s,10s}, backoff base 100ms/1s, max 1-20x, jitter 0/0.2) dialing through a scripted network whose per-address behaviour queue mixes refuse, accept, accept-then-close (before and after the server preface) and hang; 12-52 steps: Connect, virtual sleeps 10ms-25s (backoff and idle timers fire), close or GOAWAY a live connection, change behaviours, resolver updates with other address subsets, SubConn.UpdateAddresses with another list on a live subchannel (also right after Connect, while the attempt is in flight), RPCs with deadlines, ResetConnectBackoff, Close in the middle, and (family storm) bursts of Connect against servers that hang up right after the handshake; 1-8 watcher goroutines loop GetState/WaitForStateChange. Oracles: per subchannel only the edges IDLE>CONNECTING, (READY>CONNECTING only directly after UpdateAddresses,) CONNECTING>READY|TRANSIENT_FAILURE|IDLE, READY>IDLE, TRANSIENT_FAILURE>IDLE, any>SHUTDOWN as delivered to the LB policy, nothing after SHUTDOWN or after the policy's Close, TRANSIENT_FAILURE>IDLE no earlier than base*(1-jitter) unless ResetConnectBackoff intervened; at every quiescent point: GetState == last state published to a subscriber, no watcher blocked in WaitForStateChange(s) with GetState != s, every live subchannel's last delivered state agrees with the network (CONNECTING needs an outstanding dial, READY a live connection, TRANSIENT_FAILURE not older than the longest backoff, a Connect() after IDLE must have produced a state); the channel publishes nothing after SHUTDOWN; every watcher's observations are an in-order subsequence of the published states and end in SHUTDOWN. Non-trivial = watchers were checked and the channel changed state; distinct = set of subchannel and channel edges seen in the case.",
 		Assumptions: []string{"the published sequence is what a subscriber registered through internal.SubscribeToConnectivityStateChanges receives",
 			"self-transitions (the same state delivered twice in a row) count as illegal edges; the unchanged tree de-duplicates them",
 			"the CONNECTING>IDLE edge is accepted because grpc documents it (connection lost before READY could be reported)"},
